@@ -2,6 +2,7 @@ import Pyrtma.Spec.Serial
 import Pyrtma.Props.C09
 import Pyrtma.Proofs.Serial
 import Pyrtma.Proofs.Json
+import Pyrtma.Proofs.Heap
 /-!
 # C10 — serialisation round trips are the identity
 
@@ -38,7 +39,7 @@ classes can build (`leafOk`: `String(n)`/`ByteArray(n)` with n > 1, `IntArray` o
 which the message compiler refuses, would indeed not round-trip: see the last example).
 -/
 namespace Pyrtma.C10
-open Pyrtma.Validators Pyrtma.Serial Pyrtma.Json
+open Pyrtma.Validators Pyrtma.Serial Pyrtma.Json Pyrtma.Heap
 
 /-- **Version check**: header+data JSON is refused iff the header's version is non-zero and differs from the local hash -/
 theorem json_version_refused (v h : Nat) : versionRefused v h = true ↔ (v ≠ 0 ∧ v ≠ h) := by
@@ -668,6 +669,85 @@ theorem message_json_text_roundtrip (ftok : Nat → List Char) (hf : ∀ x, floa
   obtain ⟨j, he, hok⟩ := toJ_ok ftok hf d b h
   exact ⟨j, he, json_text_roundtrip_min j hok, json_text_roundtrip_pretty j hok⟩
 
+/-! ### copies share no storage -/
+
+theorem slice_self (b : Bytes) (off n : Nat) : slice (slice b off n) 0 n = slice b off n := by
+  simp [slice, List.take_take]
+
+/-- **`cls.copy(m)` is an equal object**: same class, same bytes -/
+theorem copy_is_equal (s : St) (o : Obj) (hv : s.valid o.ref) :
+    ∃ s' c, s.copy o = some (s', c) ∧ c.cls = o.cls ∧ s'.read c.ref = s.read o.ref ∧ c.ref.size = o.ref.size := by
+  obtain ⟨s', c, he, hc, hr, hrd, _, _⟩ := copyAs_spec s o.cls o.ref.size o.ref hv (Nat.le_refl _)
+  refine ⟨s', c, he, hc, ?_, by rw [hr]⟩
+  rw [hrd]; exact slice_self _ _ _
+
+/-- **writing any bytes into the copy leaves the source — and every other live object, every view of the source
+included — unchanged** -/
+theorem write_to_copy_leaves_source (s s' : St) (o c : Obj) (hv : s.valid o.ref) (hc : s.copy o = some (s', c))
+    (r : Ref) (hr : s.valid r) (off : Nat) (data : Bytes) : (s'.write c.ref off data).read r = s.read r := by
+  obtain ⟨s1, c1, he, _, _, _, _, hfr⟩ := copyAs_spec s o.cls o.ref.size o.ref hv (Nat.le_refl _)
+  have : (s', c) = (s1, c1) := by
+    have h1 : s.copy o = some (s1, c1) := he
+    rw [hc] at h1; exact Option.some.inj h1
+  obtain ⟨rfl, rfl⟩ := Prod.mk.inj this
+  obtain ⟨_, hrd, hne⟩ := hfr r hr
+  rw [write_frame _ _ _ _ _ (fun e => hne e.symm), hrd]
+
+/-- **and vice versa: writing any bytes into the source (or through any view of it, or into any other live object)
+leaves the copy unchanged** -/
+theorem write_to_source_leaves_copy (s s' : St) (o c : Obj) (hv : s.valid o.ref) (hc : s.copy o = some (s', c))
+    (r : Ref) (hr : s.valid r) (off : Nat) (data : Bytes) : (s'.write r off data).read c.ref = s'.read c.ref := by
+  obtain ⟨s1, c1, he, _, _, _, _, hfr⟩ := copyAs_spec s o.cls o.ref.size o.ref hv (Nat.le_refl _)
+  have : (s', c) = (s1, c1) := by
+    have h1 : s.copy o = some (s1, c1) := he
+    rw [hc] at h1; exact Option.some.inj h1
+  obtain ⟨rfl, rfl⟩ := Prod.mk.inj this
+  exact write_frame _ _ _ _ _ (hfr r hr).2.2
+
+/-- the copy lives in a buffer of its own -/
+theorem copy_is_fresh (s s' : St) (o c : Obj) (hv : s.valid o.ref) (hc : s.copy o = some (s', c)) :
+    c.ref.addr = s.heap.length ∧ c.ref.off = 0 ∧ ∀ r, s.valid r → r.addr ≠ c.ref.addr := by
+  obtain ⟨s1, c1, he, _, hrf, _, _, hfr⟩ := copyAs_spec s o.cls o.ref.size o.ref hv (Nat.le_refl _)
+  have : (s', c) = (s1, c1) := by
+    have h1 : s.copy o = some (s1, c1) := he
+    rw [hc] at h1; exact Option.some.inj h1
+  obtain ⟨rfl, rfl⟩ := Prod.mk.inj this
+  exact ⟨by rw [hrf], by rw [hrf], fun r hr => (hfr r hr).2.2⟩
+
+/-- **`Message.copy`**: the copy's header has the class and the bytes of the original header (so a time-code header
+stays a time-code header), the data likewise; the two new objects live in two fresh buffers: writing into either
+leaves every object that existed before (source header, source data, anything else) unchanged, and writing into any
+of those leaves both new objects unchanged -/
+theorem message_copy_spec (s : St) (h d : Obj) (hh : s.valid h.ref) (hd : s.valid d.ref) :
+    ∃ s' h' d', s.msgCopy h d = some (s', h', d') ∧
+      h'.cls = h.cls ∧ d'.cls = d.cls ∧ s'.read h'.ref = s.read h.ref ∧ s'.read d'.ref = s.read d.ref ∧
+      h'.ref.addr ≠ d'.ref.addr ∧
+      (∀ r, s.valid r → ∀ off data,
+        (s'.write h'.ref off data).read r = s.read r ∧ (s'.write d'.ref off data).read r = s.read r ∧
+        (s'.write r off data).read h'.ref = s'.read h'.ref ∧ (s'.write r off data).read d'.ref = s'.read d'.ref) := by
+  obtain ⟨s1, h', e1, hc1, hrf1, hrd1, hv1, hfr1⟩ := copyAs_spec s h.cls h.ref.size h.ref hh (Nat.le_refl _)
+  have hd1 := hfr1 d.ref hd
+  obtain ⟨s2, d', e2, hc2, hrf2, hrd2, hv2, hfr2⟩ := copyAs_spec s1 d.cls d.ref.size d.ref hd1.1 (Nat.le_refl _)
+  have hh2 := hfr2 h'.ref hv1
+  refine ⟨s2, h', d', ?_, hc1, hc2, ?_, ?_, hh2.2.2, ?_⟩
+  · have e1' : s.copy h = some (s1, h') := e1
+    have e2' : s1.copy d = some (s2, d') := e2
+    simp only [St.msgCopy, e1', e2']
+  · rw [hh2.2.1, hrd1]; exact slice_self _ _ _
+  · rw [hrd2, hd1.2.1]; exact slice_self _ _ _
+  · intro r hr off data
+    have a1 := hfr1 r hr
+    have a2 := hfr2 r a1.1
+    refine ⟨?_, ?_, ?_, ?_⟩
+    · rw [write_frame _ _ _ _ _ (fun e => a1.2.2 e.symm), a2.2.1, a1.2.1]
+    · rw [write_frame _ _ _ _ _ (fun e => a2.2.2 e.symm), a2.2.1, a1.2.1]
+    · exact write_frame _ _ _ _ _ a1.2.2
+    · exact write_frame _ _ _ _ _ a2.2.2
+
+/-- `cls.copy(m)` with a class larger than `m` is refused (`ValueError` of `from_buffer_copy`) -/
+theorem copy_as_too_small (s : St) (cls size : Nat) (src : Ref) (h : src.size < size) : s.copyAs cls size src = none := by
+  simp [St.copyAs]; omega
+
 /-! ### non-vacuity -/
 /-- "hello" then "hi" in a `char[8]`: the patched store leaves `hi` + six NULs, which round-trips -/
 example : setField true (.str 8) [104, 101, 108, 108, 111, 0, 0, 0] .whole (.sc (.str [104, 105])) = ([104, 105, 0, 0, 0, 0, 0, 0], none) := by decide
@@ -748,5 +828,27 @@ example : wfB tcHeaderWalk tcHeaderBytes = false := by decide
 example : toDict tcHeaderWalk tcHeaderBytes =
     .dict (.cons "utc_seconds" (.leaf (.sc (.int 1))) (.cons "utc_fraction" (.leaf (.sc (.int 2))) .nil)) := by decide
 example : fromDict tcHeaderWalk (toDict tcHeaderWalk tcHeaderBytes) ≠ (tcHeaderBytes, none) := by decide
+
+/-! #### storage -/
+def exSt : St := { heap := [[1, 2, 3, 4]] }
+def exObj : Obj := { cls := 7, ref := { addr := 0, off := 0, size := 4 } }
+example : exSt.valid exObj.ref := ⟨by decide, by decide⟩
+example : exSt.copy exObj = some ({ heap := [[1, 2, 3, 4], [1, 2, 3, 4]] }, { cls := 7, ref := { addr := 1, off := 0, size := 4 } }) := by
+  decide
+/-- write into the copy: the source keeps its bytes; write into the source: the copy keeps its bytes -/
+example : (({ heap := [[1, 2, 3, 4], [1, 2, 3, 4]] } : St).write { addr := 1, off := 0, size := 4 } 1 [9, 9]).heap =
+    [[1, 2, 3, 4], [1, 9, 9, 4]] := by decide
+example : (({ heap := [[1, 2, 3, 4], [1, 2, 3, 4]] } : St).write { addr := 0, off := 0, size := 4 } 0 [8]).heap =
+    [[8, 2, 3, 4], [1, 2, 3, 4]] := by decide
+/-- in contrast a *view* (`msg.field` of a nested struct) shares: a write through it shows in the parent -/
+example : view exObj.ref 1 2 = some { addr := 0, off := 1, size := 2 } := by decide
+example : (exSt.write { addr := 0, off := 1, size := 2 } 0 [9, 9]).read exObj.ref = [1, 9, 9, 4] := by decide
+/-- a copy of the view is a fresh two-byte object -/
+example : exSt.copyAs 3 2 { addr := 0, off := 1, size := 2 } =
+    some ({ heap := [[1, 2, 3, 4], [2, 3]] }, { cls := 3, ref := { addr := 1, off := 0, size := 2 } }) := by decide
+example : exSt.copyAs 3 5 exObj.ref = none := by decide
+example : ({ heap := [[1, 2], [5, 6, 7]] } : St).msgCopy { cls := 1, ref := ⟨0, 0, 2⟩ } { cls := 2, ref := ⟨1, 0, 3⟩ } =
+    some ({ heap := [[1, 2], [5, 6, 7], [1, 2], [5, 6, 7]] }, { cls := 1, ref := ⟨2, 0, 2⟩ }, { cls := 2, ref := ⟨3, 0, 3⟩ }) := by
+  decide
 
 end Pyrtma.C10
